@@ -70,7 +70,7 @@ func genC20(t *rapid.T) c20Case {
 		nops := rapid.IntRange(0, 6).Draw(t, "nops")
 		for j := 0; j < nops && !cc.Refused; j++ {
 			op := c20Op{
-				Kind:    rapid.SampledFrom([]string{"complete", "complete", "start", "start", "start", "continue", "continue", "even-first", "even-open", "replay", "badkey", "eof-mid", "eof", "read-error", "read-error-mid", "write-fails", "write-fails-open", "start-at-255", "complete-at-255"}).Draw(t, "kind"),
+				Kind:    rapid.SampledFrom([]string{"complete", "complete", "start", "start", "start", "continue", "continue", "even-first", "even-open", "replay", "badkey", "eof-mid", "eof", "read-error", "read-error-mid", "write-fails", "write-fails-open", "start-at-255", "complete-at-255", "continue-clear", "continue-clear"}).Draw(t, "kind"),
 				Session: rapid.Uint32Range(1, 3).Draw(t, "session"),
 			}
 			cc.Ops = append(cc.Ops, op)
@@ -180,6 +180,16 @@ func runC20(t failer, c c20Case) (abandoned, rejected int) {
 			case "complete":
 				wire = pkt(last+1, op.Session, false)
 				delete(st.last, op.Session)
+			case "continue-clear":
+				// the continuation of a session that was opened obfuscated arrives with the unencrypted flag
+				// (and a clear body); whether the server goes on with it or ends the connection, the gauges
+				// return to rest
+				if !open || last+1 >= 253 {
+					continue
+				}
+				wire = model.Frame(nil, model.Header{Version: 0xc0, Type: 1, Seq: byte(last + 1), Flags: model.FlagUnencrypted, Session: op.Session}, []byte{0, 0, 0, 0, 0})
+				delete(st.last, op.Session)
+				rejected++
 			case "start", "continue":
 				if op.Kind == "continue" && !open {
 					continue
